@@ -297,7 +297,33 @@ def c15(cx):
                      "server maps with 0..4 entries, locations up to 65535; JSON transport; signing samples")
 
 
-PLANS = {"C01": c01, "C02": c02, "C03": c03, "C04": c04, "C05": c05, "C06": c06, "C07": c07, "C08": c08, "C09": c09, "C10": c10, "C11": c11, "C12": c12, "C15": c15, "C16": c16, "C17": c17, "C18": c18, "C19": c19, "C20": c20}
+def c14(cx):
+    import json
+    cx.assumptions += ["a single write system call is not observed half done by a concurrent read (the README's premise; a kernel property)",
+                       "the order in which the code archives its files is read from server.PublicFiles of the tree under test and given to the model",
+                       "an unregistered server has no GCA key file and answers 500: no archive is produced, which the property does not forbid",
+                       "the rate limit is judged from the callers' before/after clock readings (only certain violations count)"]
+    q = cx.tier == QUICK
+    prod = json.loads(cx.run_tool("prodconsts", "verif"))
+    names = {"allDeviceStats.dat": "stats", "equipment-reports.dat": "reports", "equipment-authorizations.dat": "auths",
+             "gcaPubKey.dat": "gca", "gcaTempPubKey.dat": "temp"}
+    order = [names.get(f, "other") for f in prod["public_files"]]
+    cx.module_subst = {"Order": "<<" + ", ".join('"%s"' % o for o in order) + ">>"}
+    ok, res = cx.mc("MC_Archive", "MC_Archive.cfg", {"MaxBursts": 5 if q else 7}, workers=8, expect_ok=False,
+                    note="every interleaving of <=5/7 writes (registration, new device, report, rotation) with the reads of one request, "
+                         "in the order the code uses: " + " ".join(order))
+    cx.module_subst = None
+    cx.cov["model_says_order_safe"] = ok
+    consts = prod["server"]
+    r = cx.drv_ok("archive")
+    cx.validate("Trace_Archive", "Trace_Archive.cfg", r["trace"] + ".arc", {"Limit": int(consts["apiArchiveLimit"])},
+                what="for every gap between two files x every burst (new device + first report, rotation, registration + first device) "
+                     "the real request is held in the gap; concurrent writers; request bursts against the limiter")
+    if not ok and not cx.violations:
+        raise __import__("core").Broken("the model finds the code's archive order unsafe but no real archive showed it: unreproduced counterexample")
+
+
+PLANS = {"C01": c01, "C02": c02, "C03": c03, "C04": c04, "C05": c05, "C06": c06, "C07": c07, "C08": c08, "C09": c09, "C10": c10, "C11": c11, "C12": c12, "C14": c14, "C15": c15, "C16": c16, "C17": c17, "C18": c18, "C19": c19, "C20": c20}
 
 
 def replay(cx, path):
